@@ -1124,4 +1124,55 @@ theorem runUntil_low (s0 : St) (x0 : Exit) (hs0 : inLoop s0 = false) (hc : Consi
       obtain ⟨Y', h'⟩ := step_inv s0 (.loop x0) hs0 hc st Y h hY ev
       exact ih (step ev st) Y' h' (step_low s0 x0 hs0 B st Y h hl hY ev hsafe.1 Y' h') hsafe.2
 
+
+/-! ### the per-frame form of the hypothesis (what a bytecode verifier establishes) -/
+
+/-- `SequenceToList` / `StringFinish` is executed only while the *current frame* has a builder of
+its own open (relative depth ≥ 1): the trace-level reading of C05's `wf_sound_balance` (in a chunk
+accepted by `wfChunk` no builder instruction finds the frame unit's builder stack empty). -/
+def FrameSafeEv (ev : Ev) (st : St) : Prop :=
+  (ev = .seqEnd → ∀ f rest, st.vm.stack = f :: rest → f.seq0 < st.vm.seq) ∧
+  (ev = .strEnd → ∀ f rest, st.vm.stack = f :: rest → f.str0 < st.vm.str)
+
+def FrameSafeUntil (d : Nat) : List Ev → St → Prop
+  | [], _ => True
+  | ev :: rest, st =>
+    if st.conts.length ≤ d then True else FrameSafeEv ev st ∧ FrameSafeUntil d rest (step ev st)
+
+/-- inside the bracket the per-frame condition implies the bracket-level one: the current frame
+lies above the caller's frames, so its recorded counts are at least the entry's -/
+theorem safeEv_of_frameSafe (s0 : St) (x0 : Exit) (B : Bnd) (st : St) (Y : List Cont)
+    (hi : Inside s0 x0 B st Y) (ev : Ev) (h : FrameSafeEv ev st) : SafeEv B ev st := by
+  obtain ⟨X, hX, hXne⟩ := hi.split
+  cases X with
+  | nil => exact absurd rfl hXne
+  | cons f X1 =>
+    have hok : FrameOk B f := (hi.ge (f :: X1) hX).1 f (by simp)
+    have hstk : st.vm.stack = f :: (X1 ++ s0.vm.stack) := by rw [hX]; rfl
+    exact ⟨fun he _ => Nat.lt_of_le_of_lt hok.2.1 (h.1 he f _ hstk),
+           fun he _ => Nat.lt_of_le_of_lt hok.2.2.1 (h.2 he f _ hstk)⟩
+
+theorem runUntil_low_frame (s0 : St) (x0 : Exit) (hs0 : inLoop s0 = false) (hc : Consistent s0.vm)
+    (B : Bnd) : ∀ (evs : List Ev) (st : St) (Y : List Cont), Inv s0 (.loop x0) st Y →
+      Low B (.loop x0) s0.vm.stack st Y → FrameSafeUntil s0.conts.length evs st →
+      ∃ Y', Inv s0 (.loop x0) (runUntil s0.conts.length evs st) Y' ∧
+        Low B (.loop x0) s0.vm.stack (runUntil s0.conts.length evs st) Y' := by
+  intro evs
+  induction evs with
+  | nil => intro st Y h hl _; exact ⟨Y, h, hl⟩
+  | cons ev rest ih =>
+    intro st Y h hl hsafe
+    simp only [runUntil]
+    simp only [FrameSafeUntil] at hsafe
+    split
+    · exact ⟨Y, h, hl⟩
+    · rename_i hlen
+      rw [if_neg hlen] at hsafe
+      have hY : Y ≠ [] := by
+        intro hn; subst hn; apply hlen; rw [h.conts]; simp
+      obtain ⟨Y', h'⟩ := step_inv s0 (.loop x0) hs0 hc st Y h hY ev
+      have hi := inside_of s0 x0 B st Y h hl hY
+      have hse := safeEv_of_frameSafe s0 x0 B st Y hi ev hsafe.1
+      exact ih (step ev st) Y' h' (step_low s0 x0 hs0 B st Y h hl hY ev hse Y' h') hsafe.2
+
 end KotoVerif.Unwind
